@@ -268,11 +268,26 @@ func (r *Run) Execute() int {
 		}
 		fmt.Printf("VIOLATION property=%s replay=%s obligation=%s status=%s%s\n", r.Prop, replay, res.Name, res.Status, tail)
 	}
+	// A unit whose contract no longer applies to the code (a loop the contract names is gone, a name an
+	// invariant mentions has disappeared, an instruction outside the supported subset appeared): every
+	// obligation of that unit was discharged on the unchanged tree and cannot be established now. This is
+	// reported as a violation of the unit's contract; the witness searches registered for the unit's
+	// obligations are run to look for a failing input on the real code.
 	for _, s := range undecided {
-		fmt.Printf("UNDECIDED property=%s reason=%s\n", r.Prop, s)
-		if exit == 0 {
-			exit = 2
+		unit, reason, _ := strings.Cut(s, ": ")
+		res := &ObResult{Name: unit + "#contract-applies", Kind: "contract", Status: "contract-mismatch", Src: "the contract of " + unit + " can be evaluated against its current body", Detail: reason}
+		if kf := known.lookup(r.Prop, res.Name); kf != nil {
+			fmt.Printf("KNOWN-FINDING: property=%s %s: %s\n", r.Prop, res.Name, kf.What)
+			continue
 		}
+		violations++
+		exit = 1
+		replay, reproduced := r.replayUnit(res, unit)
+		tail := ""
+		if !reproduced {
+			tail = " no-failing-input-found"
+		}
+		fmt.Printf("VIOLATION property=%s replay=%s obligation=%s status=%s reason=%q%s\n", r.Prop, replay, res.Name, res.Status, reason, tail)
 	}
 	if vacuous > 0 {
 		for _, vp := range vacuousPaths {
@@ -302,6 +317,28 @@ func (r *Run) Execute() int {
 		}
 	}
 	return exit
+}
+
+// replayUnit runs every witness search registered for obligations of the given unit.
+func (r *Run) replayUnit(res *ObResult, unit string) (string, bool) {
+	path := filepath.Join(verifDir, "replays", fmt.Sprintf("%s-%s.txt", r.Prop, mangle(res.Name)))
+	var b strings.Builder
+	fmt.Fprintf(&b, "property: %s\nobligation: %s\nstatus: %s\nreason: %s\n", r.Prop, res.Name, res.Status, res.Detail)
+	reproduced := false
+	seen := map[string]bool{}
+	for _, w := range loadWitnesses() {
+		if !strings.HasPrefix(w.Obligation, unit+"#") || seen[w.File+"/"+w.Test] {
+			continue
+		}
+		seen[w.File+"/"+w.Test] = true
+		out, failed, err := runOverlayTest(w.File, w.Test, nil)
+		fmt.Fprintf(&b, "\n--- witness search %s (%s) on the real code ---\n%s\n", w.Test, w.File, out)
+		if err == nil && failed {
+			reproduced = true
+		}
+	}
+	os.WriteFile(path, []byte(b.String()), 0644)
+	return path, reproduced
 }
 
 // replay writes the replay file for a failed obligation; returns (path, reproduced on real code).
